@@ -96,6 +96,16 @@ econf_err econf_set_conf_dirs(const char **dir_postfix_list)
   return ECONF_SUCCESS;
 }
 
+#ifdef OPENSUSE_LIBECONF_VERIF
+/* verification hook: creation and release of econf_file objects are reported
+   to the verification harness when it has installed a listener */
+void (*econf_verif_object_hook)(const char *event, const void *object) = NULL;
+#define VERIF_OBJECT(event, object) \
+  do { if (econf_verif_object_hook) econf_verif_object_hook(event, object); } while (0)
+#else
+#define VERIF_OBJECT(event, object) do { } while (0)
+#endif
+
 // Create a new econf_file. Allocation is based on
 // KEY_FILE_DEFAULT_LENGTH defined in include/defines.h
 econf_err
@@ -130,6 +140,7 @@ econf_newKeyFile(econf_file **result, char delimiter, char comment)
     initialize(key_file, i);
 
   *result = key_file;
+  VERIF_OBJECT("new", key_file);
 
   return ECONF_SUCCESS;
 }
@@ -141,6 +152,7 @@ econf_newKeyFile_with_options(econf_file **result, const char *options) {
 
   if (*result == NULL)
     return ECONF_NOMEM;
+  VERIF_OBJECT("new", *result);
   (*result)->alloc_length = 0;
   (*result)->length = 0;
   (*result)->join_same_entries = false;
@@ -297,6 +309,7 @@ econf_err econf_mergeFiles(econf_file **merged_file, econf_file *usr_file, econf
   *merged_file = calloc(1, sizeof(econf_file));
   if (*merged_file == NULL)
     return ECONF_NOMEM;
+  VERIF_OBJECT("merged", *merged_file);
 
   (*merged_file)->delimiter = usr_file->delimiter;
   (*merged_file)->comment = usr_file->comment;
@@ -812,6 +825,7 @@ char **econf_freeArray(char** array) {
 econf_file *econf_freeFile(econf_file *key_file) {
   if (!key_file)
     return NULL;
+  VERIF_OBJECT("free", key_file);
 
   if (key_file->file_entry)
   {
